@@ -15,6 +15,8 @@ def discOp (op : String) (args : List String) : Option String :=
   | "disc" => (runP (do let x1 ← pSc (α := Float); let y1 ← pSc; let r1 ← pSc; let x2 ← pSc; let y2 ← pSc; let r2 ← pSc
                         pure (x1, y1, r1, x2, y2, r2)) args).map fun (x1, y1, r1, x2, y2, r2) =>
       showExcept (Disc.area Disc.floatFns x1 y1 r1 x2 y2 r2)
+  | "discd" => (runP (do let r1 ← pSc (α := Float); let r2 ← pSc; let d ← pSc; pure (r1, r2, d)) args).map
+      fun (r1, r2, d) => showExcept (Disc.areaD Disc.floatFns r1 r2 d)
   | "dist" => (runP (do let x1 ← pSc (α := Float); let y1 ← pSc; let x2 ← pSc; let y2 ← pSc; pure (x1, y1, x2, y2)) args).map
       fun (x1, y1, x2, y2) => showExcept (Disc.dist Disc.floatFns x1 y1 x2 y2)
   | _ => none
